@@ -22,9 +22,14 @@ type Build struct {
 }
 
 type ProgramData struct {
-	Build    Build
-	Counters map[string]int64
-	Stacks   map[string]int64
+	// PlatformOK is set by Filter: GOOS and GOARCH are in the configuration.
+	// The report statement (C01) approves programs by path, version and Go
+	// version; the server (C11) also requires the platform, so a build on an
+	// unlisted platform may be left out of a request.
+	PlatformOK bool
+	Build      Build
+	Counters   map[string]int64
+	Stacks     map[string]int64
 }
 
 type Week struct {
@@ -89,6 +94,7 @@ func Filter(w *Week, cfg *refcfg.Config, x float64) *Week {
 			continue
 		}
 		q := &ProgramData{Build: p.Build, Counters: map[string]int64{}, Stacks: map[string]int64{}}
+		q.PlatformOK = cfg.HasGOOS(p.Build.GOOS) && cfg.HasGOARCH(p.Build.GOARCH)
 		for n, v := range p.Counters {
 			if r, ok := cfg.CounterRate(p.Build.Program, n); ok && r >= x {
 				q.Counters[n] = v
